@@ -344,7 +344,7 @@ def exp_minus(it, st):
 def atof64_check(rep, mod):
     import absint
     old = absint.MAX_STATES
-    absint.MAX_STATES = 600        # five scan loops in sequence, each with two exits and a terminator split
+    absint.MAX_STATES = 300        # five scan loops in sequence, each with two exits and a terminator split
     try:
         _atof64_check(rep, mod)
     finally:
@@ -381,6 +381,8 @@ def _atof64_check(rep, mod):
         raise AnalysisBroken('%s: expected one integer sign factor in the result, found %d' % (fname, len(signs)))
     S = signs[0]
     it = InterpF(mod)
+    it.no_peel = True
+    it.havoc_pure_loops(f)
     sink = Sink(rep, it)
 
     def merge_hook(interp, st, i, fn):
@@ -428,10 +430,8 @@ def _atof64_check(rep, mod):
     run = Run7(it, [])
     run.run(f.name, spec7(setup=cstr_params(0), extents={'arg1': '8'}, post=post, outptrs={1: 'end'}))
     import_obligations(rep, 'R-ATOF64', it, run)
-    it2 = InterpF(mod)
-    run2 = Run7(it2, [])
-    run2.run(f.name, spec7(setup=combine(cstr_params(0), null_param(1))))
-    import_obligations(rep, 'R-ATOF64-NOEND', it2, run2)
+    if guarded_outptr_rule(rep, 'R-ATOF64', f, fname, 1) == 0:
+        raise AnalysisBroken('%s never stores the end pointer' % fname)
     # digits: every float accumulation multiplies by 10 and adds c - '0'
     fa = float_accumulators(f)
     rep.inst('R-ATOF64', fname, 'integer and fraction digits are accumulated as val*10 + digit',
@@ -476,10 +476,10 @@ def atof32_check(rep, mod):
     fname = 'igris_atof32'
     f = need(mod, fname)
     it = InterpF(mod)
-    post = [dict(name='end pointer is set on every path',
-                 then=['ghost_end_set_post == 1', 'ghost_end_arg_post == 0']),
+    it.havoc_pure_loops(need(mod, 'local_pow'))
+    post = [dict(name='end pointer is set on every path', then=['ghost_end_set_post == 1']),
             dict(name='end pointer is the scan position', when=['ghost_end_set_post == 1'],
-                 then=['ghost_end_off_post == ghost_last_off_post'])]
+                 then=['ghost_end_arg_post == 0', 'ghost_end_off_post == ghost_last_off_post'])]
     run = Run7(it, [])
     run.run(f.name, spec7(setup=cstr_params(0), extents={'arg1': '8'}, post=post, outptrs={1: 'end'}))
     import_obligations(rep, 'R-ATOF32', it, run)
